@@ -3,9 +3,12 @@
                                  [full match?; prefix match?; number of backtracking paths]
    case [101; [script ...]]   -> a process transpiling the scripts one after the other (Lang/FoldSession.v, memo as the
                                  inventory of the current source allows): per script the folded observations
+   case [102; ua; prog]       -> the function-variant machinery (Lang/VariantCost.v) on a script of defs and top-level calls:
+                                 [out of fuel / wrong arity?; the _parse_function invocations in order: [name; [] | [signature]]]
+                                 (ua = 1: the memo is looked up through the alias table, as the code does)
    (a unit of its own - Wire/C11W.v stays the evaluator wire shared with C03 - because the extraction flattens names) *)
 From Coq Require Import ZArith List Bool.
-From RV Require Import Base.Wire Lang.Regex Gen.Regexes Lang.FoldSession.
+From RV Require Import Base.Wire Lang.Regex Gen.Regexes Lang.FoldSession Lang.VariantCost.
 Import ListNotations.
 Open Scope Z_scope.
 
@@ -30,8 +33,38 @@ Definition dec_script (v : wv) : option (list fstmt) := match v with WL l => dec
 Definition enc_fout (o : fout) : wv :=
   match o with OLenIs n => WL [WI 0; WI n] | OPattern l => WL [WI 1; wtext l] | ORuntime => WL [WI 2] end.
 
+Definition dec_arg (v : wv) : option arg :=
+  match v with
+  | WL [WI 0; WI i] => Some (AParam (Z.to_nat i))
+  | WL [WI 1; WI t] => Some (ALit t)
+  | _ => None
+  end.
+
+Definition dec_term (v : wv) : option term :=
+  match v with
+  | WL [WI 0; WI i] => Some (TParam (Z.to_nat i))
+  | WL [WI 1; WI t] => Some (TLit t)
+  | WL [WI 2; WI f; WL args] => match dec_all dec_arg args with Some a => Some (TCall f a) | None => None end
+  | _ => None
+  end.
+
+Definition dec_item (v : wv) : option item :=
+  match v with
+  | WL [WI 0; WI n; WI a; WL ts] => match dec_all dec_term ts with Some b => Some (IDef n (mkfn (Z.to_nat a) b)) | None => None end
+  | WL [WI 1; WI n; sg] => match un_text sg with Some s => Some (ICall n s) | None => None end
+  | _ => None
+  end.
+
+Definition enc_parse (e : Z * option sig) : wv :=
+  WL [WI (fst e); match snd e with None => WL [] | Some s => WL [wtext s] end].
+
 Definition run (v : wv) : wv :=
   match v with
+  | WL [WI 102; WI ua; WL items] =>
+      match dec_all dec_item items with
+      | Some p => let s := vrun (negb (ua =? 0)) 400 p in WL [wbool (oof s); WL (map enc_parse (rev (trace s)))]
+      | None => wbad
+      end
   | WL [WI 100; WI idx; t] =>
       match un_text t, nth_error regex_table (Z.to_nat idx) with
       | Some w, Some e =>
